@@ -101,6 +101,8 @@ struct GOpts {
   bool indent_entries = true;
   bool header_trail = true;  // trailing comments on header lines
   bool indent_comments = true;
+  bool cont_after_quoted = false;  // continuation lines also after a "quoted" first line (C02, C17)
+  bool wild_trail = false;         // trailing comments may contain further comment characters (memory-safety checks only)
   bool indent_headers = true;
   int max_lines = 40;
   int fixed_di = -1, fixed_ci = -1;
@@ -342,11 +344,12 @@ inline GFile gen_file(Src &s, const GOpts &o) {
         l.text = ind + e.key + sep + vtext;
         // blanks after the value
         if (s.chance(15)) l.text += gen_blanks(s, 1, 2, f.cls == DC_BLANK ? dblank : " \t");
-        e.lines_trimmed = {e.raw_value};
+        e.lines_trimmed = {e.quoted ? trim_blanks(e.raw_value) : e.raw_value};
         // trailing comment
         if (o.trail && s.chance(22)) {
           char c = C[s.below((uint32_t)C.size())];
           std::string tt = gen_text(s, a_ttext, gen_len(s, 0, o.long_fields));
+          if (o.wild_trail && s.chance(40)) tt += std::string(" ") + C[s.below((uint32_t)C.size())] + " " + gen_text(s, a_ttext, gen_len(s, 0, false));
           std::string lead = s.chance(50) ? " " : "";
           // between value and comment: blanks (from D in class BLANK)
           std::string gap = gen_blanks(s, 0, 2, f.cls == DC_BLANK ? dblank : " \t");
@@ -368,7 +371,7 @@ inline GFile gen_file(Src &s, const GOpts &o) {
       add_line(l);
       prev_entryish = true;
       // ---------------- continuation lines
-      if (can_cont && f.cls != DC_NONE && !e.quoted && !e.verbatim_quote && !(o.multiline_no_trail && l.has_trail)) {
+      if (can_cont && f.cls != DC_NONE && (!e.quoted || o.cont_after_quoted) && !e.verbatim_quote && !(o.multiline_no_trail && l.has_trail)) {
         for (;;) {
           auto cont_span = s.span();
           if (!(nlines < o.max_lines && s.chance(18))) break;
